@@ -282,8 +282,9 @@ def ItemOK : Item → Prop
 
 theorem sqrt_is_fn : vName "sqrt".toList = .fn := by
   have h : globalFns.contains ("sqrt".toList.map Char.toNat) = true := by decide +kernel
+  have h0 : ("sqrt".toList.map Char.toNat == [0]) = false := by decide +kernel
   unfold vName
-  simp only [h, if_true]
+  simp only [h, h0, if_true, Bool.false_eq_true, if_false]
 
 theorem evalP_expSyn_sem (e : Rat) : NumSem (evalP (expSyn e)) e := by
   unfold expSyn
@@ -304,7 +305,20 @@ theorem evalP_expSyn_sem (e : Rat) : NumSem (evalP (expSyn e)) e := by
     exact evalP_ratSyn_sem e
 
 theorem evalP_name_ok {s : String} (h : Ordinary s) : evalP (.name s.toList) = .ok (.mono ⟨1, [(s, 1)]⟩) := by
-  simp only [evalP]; rw [h]
+  simp only [evalP]
+  by_cases h0 : (s.toList.map Char.toNat == [0]) = true
+  · exfalso
+    unfold Ordinary vName at h
+    simp only [h0, if_true] at h
+    cases h
+  · by_cases h1 : globalTypes.contains (s.toList.map Char.toNat) = true
+    · exfalso
+      unfold Ordinary vName at h
+      simp only [h0, h1, if_true] at h
+      by_cases h2 : globalFns.contains (s.toList.map Char.toNat) = true
+      · simp only [h2, if_true] at h; cases h
+      · simp only [h2] at h; cases h
+    · simp only [h0, h1]; rw [h]; rfl
 
 theorem evalP_item_sem (it : Item) (h : ItemOK it) : Sem (evalP (itemSyn it)) (evalItem it) := by
   cases it with
@@ -624,5 +638,34 @@ def answersMono (r : Except PErr Val) : Bool :=
   match r with
   | .ok (.mono _) => true
   | _ => false
+
+end Unyt.C20M
+
+namespace Unyt.C20M
+open Unyt Parse Print UExpr
+
+theorem numPowInt_neg_one {c r : Rat} (hc : c ≠ 0) (h : numPowInt c (-1) = .ok r) : r = 1 / c := by
+  unfold numPowInt at h
+  have hn : ¬ ((-1 : Int) = 0) := by decide
+  simp only [hn, hc, if_false] at h
+  by_cases h1 : c = 1
+  · simp only [h1, if_true] at h; cases h; rw [h1]; decide +kernel
+  · simp only [h1, if_false] at h
+    by_cases h2 : c = -1
+    · have hm : ¬ ((-1 : Int) % 2 = 0) := by decide
+      simp only [h2, if_true, hm, if_false] at h; cases h; rw [h2]; decide +kernel
+    · simp only [h2, if_false] at h
+      split at h
+      · cases h
+      · split at h
+        · cases h
+        · unfold guardRat at h
+          split at h
+          · cases h
+            have hneg : ¬ ((-1 : Int) ≥ 0) := by decide
+            simp only [ratPowInt, hneg, if_false]
+            show (1 : Rat) / ratPowNat c 1 = 1 / c
+            simp only [ratPowNat, Rat.one_mul]
+          · cases h
 
 end Unyt.C20M
